@@ -1,0 +1,162 @@
+//go:build verif
+
+// Contracts for the verifier in /verif (comment-only file; compiled only with -tags verif).
+// C13 (protocol version negotiation) and C14 (server certificate verification).
+
+package tls
+
+// ---------------------------------------------------------------------------------------------
+// C13: version lists.
+
+// makeSupportedVersions(min, max) is the descending list max, max-1, ..., min when min <= max.
+// The length max-min+1 is computed in uint16, n = (65537+max-min) mod 65536: for min > max it wraps around
+// (min == max+1 gives the empty list, otherwise 65537+max-min elements counting down from max through 0
+// and 65535: `wrapped`), and min == 0 && max == 65535 gives the empty list as well (`ordered` excludes it).
+//@ func makeSupportedVersions
+//@   property C13
+//@   let n = (65537 + maxVers - minVers) % 65536
+//@   modifies nothing
+//@   ensures len: len(ret) == n && fresh(ret)
+//@   ensures ordered: minVers <= maxVers && maxVers - minVers < 65535 ==> len(ret) == maxVers - minVers + 1 && forall i in 0..len(ret): ret[i] == maxVers - i
+//@   ensures members: minVers <= maxVers && maxVers - minVers < 65535 ==> forall v in minVers..maxVers+1: ret[maxVers - v] == v
+//@   ensures wrapped: minVers > maxVers ==> forall i in 0..len(ret): ret[i] == ite(i <= maxVers, maxVers - i, 65536 + maxVers - i)
+//@   loop 0 invariant -1 <= $rangeindex && $rangeindex < n
+//@   loop 0 invariant forall j in 0..$k: a[j] == ite(j <= maxVers, maxVers - j, 65536 + maxVers - j)
+
+// The supported_versions extension publishes its list unchanged as the hello's version list (the bytes on
+// the wire are produced from the same e.Versions by (*SupportedVersionsExtension).Read, verif_contracts_ext_b.go).
+//@ func (*SupportedVersionsExtension).writeToUConn
+//@   property C13
+//@   requires e != nil && uc != nil && uc.HandshakeState.Hello != nil
+//@   modifies uc.HandshakeState.Hello.SupportedVersions
+//@   ensures ok: ret == nil
+//@   ensures same: uc.HandshakeState.Hello.SupportedVersions == e.Versions
+
+// The closure of SetTLSVers: smallest and largest non-GREASE entry of a version list; (0, 0) when there is
+// none. A zero entry restarts the search (0 means "unset" for both accumulators), so the min/max claims
+// are made for lists without a zero entry (nz).
+//@ spec nz(s) = forall i in 0..len(s): s[i] != 0
+//@ spec allGrease(s, n) = forall i in 0..n: grease16(s[i])
+//@ spec within(s, n, lo, hi) = forall i in 0..n: !grease16(s[i]) ==> lo <= s[i] && s[i] <= hi
+//@ spec attained(s, n, x) = exists i in 0..n: s[i] == x && !grease16(s[i])
+//@ func (*UConn).SetTLSVers$1
+//@   property C13
+//@   pure
+//@   ensures none: allGrease(versions, len(versions)) ==> ret0 == 0 && ret1 == 0
+//@   ensures some: nz(versions) && !allGrease(versions, len(versions)) ==> ret0 != 0 && ret1 != 0 && ret0 <= ret1
+//@   ensures bounds: nz(versions) ==> within(versions, len(versions), ret0, ret1)
+//@   ensures attained: nz(versions) && !allGrease(versions, len(versions)) ==> attained(versions, len(versions), ret0) && attained(versions, len(versions), ret1)
+//@   loop 0 invariant -1 <= $rangeindex && $rangeindex < len(versions)
+//@   loop 0 invariant allGrease(versions, $k) ==> minVers == 0 && maxVers == 0
+//@   loop 0 invariant nz(versions) && !allGrease(versions, $k) ==> minVers != 0 && maxVers != 0 && minVers <= maxVers
+//@   loop 0 invariant nz(versions) ==> within(versions, $k, minVers, maxVers)
+//@   loop 0 invariant nz(versions) && !allGrease(versions, $k) ==> attained(versions, $k, minVers) && attained(versions, $k, maxVers)
+
+// ---------------------------------------------------------------------------------------------
+// C13: which ServerHello versions the client accepts (upstream common.go / handshake_client.go, verified).
+
+// Package state established by the package initialiser (common.go: var supportedVersions).
+//@ spec versTableOK() = len(supportedVersions) == 4 && supportedVersions[0] == VersionTLS13 && supportedVersions[1] == VersionTLS12 && supportedVersions[2] == VersionTLS11 && supportedVersions[3] == VersionTLS10
+//@ spec tlsVers(v) = v == VersionTLS10 || v == VersionTLS11 || v == VersionTLS12 || v == VersionTLS13
+// cfgAccepts(c, isClient, v): v is a protocol version the configuration c admits.
+// A client with MinVersion == 0 starts at TLS 1.2; with an ECH config list only TLS 1.3 is admitted.
+//@ spec cfgAccepts(c, isClient, v) = tlsVers(v) && !(c.MinVersion == 0 && v < VersionTLS12 && isClient) && !(isClient && !isnil(c.EncryptedClientHelloConfigList) && v < VersionTLS13) && !(c.MinVersion != 0 && v < c.MinVersion) && !(c.MaxVersion != 0 && v > c.MaxVersion)
+
+//@ func (*Config).supportedVersions
+//@   property C13
+//@   requires c != nil
+//@   requires table: versTableOK()
+//@   modifies nothing
+//@   ensures fresh: fresh(ret) && len(ret) <= 4
+//@   ensures sound: forall i in 0..len(ret): cfgAccepts(c, isClient, ret[i])
+//@   ensures complete: forall v in VersionTLS10..VersionTLS13+1: cfgAccepts(c, isClient, v) ==> among(ret, v)
+//@   ensures descending: forall i in 0..len(ret)-1: ret[i] > ret[i+1]
+//@   loop 0 invariant -1 <= $rangeindex && $rangeindex < 4
+//@   loop 0 invariant fresh(versions) && len(versions) <= $k
+//@   loop 0 invariant forall i in 0..len(versions): cfgAccepts(c, isClient, versions[i]) && versions[i] >= VersionTLS13 - $rangeindex
+//@   loop 0 invariant forall v in VersionTLS13-$rangeindex..VersionTLS13+1: cfgAccepts(c, isClient, v) ==> among(versions, v)
+//@   loop 0 invariant forall i in 0..len(versions)-1: versions[i] > versions[i+1]
+
+// "result is one of the peer's versions and lies in the configured range"; the first acceptable peer
+// version wins; failure means no peer version is acceptable.
+//@ func (*Config).mutualVersion
+//@   property C13
+//@   requires c != nil
+//@   requires table: versTableOK()
+//@   modifies nothing
+//@   ensures ok: ret1 ==> among(peerVersions, ret0) && cfgAccepts(c, isClient, ret0)
+//@   ensures first: ret1 ==> exists i in 0..len(peerVersions): peerVersions[i] == ret0 && forall j in 0..i: !cfgAccepts(c, isClient, peerVersions[j])
+//@   ensures fail: !ret1 ==> ret0 == 0 && forall i in 0..len(peerVersions): !cfgAccepts(c, isClient, peerVersions[i])
+//@   loop 0 invariant -1 <= $rangeindex && $rangeindex < len(peerVersions)
+//@   loop 0 invariant forall i in 0..$k: !cfgAccepts(c, isClient, peerVersions[i])
+//@   loop 1 invariant -1 <= $rangeindex && $rangeindex < len(callres(supportedVersions, 0))
+//@   loop 1 invariant forall j in 0..$k: callres(supportedVersions, 0)[j] != peerVersion
+
+// The client adopts exactly the version the ServerHello selects (supported_versions if present, else the
+// legacy field), and only when the configuration admits it; otherwise protocol_version alert and an error.
+// No modifies clause: sendAlert (upstream, trusted in verif_contracts_cert.go) has no frame.
+//@ func (*Conn).pickTLSVersion
+//@   property C13
+//@   let peer = ite(serverHello.supportedVersion != 0, serverHello.supportedVersion, serverHello.vers)
+//@   let cfg = c.config
+//@   requires c != nil && c.config != nil && serverHello != nil
+//@   requires table: versTableOK()
+//@   ensures accept: ret == nil ==> old(cfgAccepts(cfg, true, peer))
+//@   ensures adopted: ret == nil ==> c.vers == peer && c.haveVers && c.in.version == peer && c.out.version == peer
+//@   ensures kept: ret == nil ==> c.config == cfg && cfg.MinVersion == old(cfg.MinVersion) && cfg.MaxVersion == old(cfg.MaxVersion)
+//@   ensures reject: !old(cfgAccepts(cfg, true, peer)) ==> ret != nil
+//@   ensures complete: old(cfgAccepts(cfg, true, peer)) ==> ret == nil
+//@   note GENERATOR GAP: the backing array of the package-level table is not known to be allocated at entry, so the freshly allocated []uint16{peerVersion} may alias it in the model; the next (listed) assumption restates requires `table` at the call. It is true in every execution: a fresh array is never the array of a variable that existed at entry.
+//@   at before call mutualVersion#0: assume tableintact: versTableOK()
+//@   at before call mutualVersion#0: assert single: arg0 == cfg && arg1 && len(arg2) == 1 && arg2[0] == peer
+//@   at before call sendAlert#0: assert alert: arg0 == c && arg1 == alertProtocolVersion
+
+// ---------------------------------------------------------------------------------------------
+// C13: (*UConn).SetTLSVers fixes the range of versions the client will accept (Config.MinVersion/MaxVersion,
+// consumed by pickTLSVersion through cfgAccepts) from the spec's TLSVersMin/TLSVersMax and extension list.
+//
+// versAdvertised(cfg, exts) is the property: every version cfg admits is on the wire, i.e. listed (as a
+// non-GREASE entry) in each supported_versions extension of exts, and at most TLS 1.2 (the legacy_version
+// field is min(MaxVersion, TLS 1.2), u_handshake_client.go:226) when exts has no such extension.
+// versConsistent(min, max, exts) is what a spec must satisfy for that: its explicit range is covered by the list.
+//@ spec isSVE(x) = istype(x, *SupportedVersionsExtension)
+//@ spec sveV(x) = x.(*SupportedVersionsExtension).Versions
+//@ spec noSVE(exts, n) = forall i in 0..n: !isSVE(exts[i])
+//@ spec onlySVE(exts, n, j) = isSVE(exts[j]) && forall i in 0..n: i != j ==> !isSVE(exts[i])
+//@ spec twoSVE(exts, n) = exists i in 0..n: exists j in i+1..n: isSVE(exts[i]) && isSVE(exts[j])
+//@ spec inr(v) = VersionTLS10 <= v && v <= VersionTLS13
+//@ spec versAdvertised(cfg, exts) = (forall i in 0..len(exts): isSVE(exts[i]) ==> forall v in VersionTLS10..VersionTLS13+1: cfgAccepts(cfg, true, v) ==> attained(sveV(exts[i]), len(sveV(exts[i])), v)) && (noSVE(exts, len(exts)) ==> forall v in VersionTLS10..VersionTLS13+1: cfgAccepts(cfg, true, v) ==> v <= VersionTLS12)
+//@ spec versConsistent(lo, hi, exts) = (forall i in 0..len(exts): isSVE(exts[i]) ==> forall v in VersionTLS10..VersionTLS13+1: lo <= v && v <= hi ==> attained(sveV(exts[i]), len(sveV(exts[i])), v)) && (noSVE(exts, len(exts)) ==> hi <= VersionTLS12)
+
+//@ func (*UConn).SetTLSVers
+//@   property C13
+//@   let min0 = minTLSVers
+//@   let max0 = maxTLSVers
+//@   let exts = specExtensions
+//@   let n = len(specExtensions)
+//@   let cfg = uconn.Conn.config
+//@   let ech = !isnil(uconn.Conn.config.EncryptedClientHelloConfigList)
+//@   let explicit = minTLSVers != 0 || maxTLSVers != 0
+//@   requires uconn != nil && uconn.Conn != nil && uconn.Conn.config != nil && uconn.HandshakeState.Hello != nil
+//@   requires typednil: forall i in 0..len(specExtensions): isSVE(specExtensions[i]) ==> specExtensions[i].(*SupportedVersionsExtension) != nil
+//@   modifies uconn.HandshakeState.Hello.SupportedVersions, uconn.Conn.config.MinVersion, uconn.Conn.config.MaxVersion
+//@   ensures explicit_ok: explicit ==> (ret == nil <==> inr(min0) && inr(max0))
+//@   ensures explicit_cfg: explicit && ret == nil && !ech ==> cfg.MinVersion == min0 && cfg.MaxVersion == max0
+//@   ensures default: !explicit && noSVE(exts, n) ==> ret == nil && (!ech ==> cfg.MinVersion == VersionTLS10 && cfg.MaxVersion == VersionTLS12)
+//@   ensures many: !explicit && twoSVE(exts, n) ==> ret != nil
+//@   ensures derived: !explicit && ret == nil && !ech ==> forall k in 0..n: onlySVE(exts, n, k) && nz(sveV(exts[k])) ==> within(sveV(exts[k]), len(sveV(exts[k])), cfg.MinVersion, cfg.MaxVersion) && attained(sveV(exts[k]), len(sveV(exts[k])), cfg.MinVersion) && attained(sveV(exts[k]), len(sveV(exts[k])), cfg.MaxVersion)
+//@   ensures range: ret == nil && !ech ==> inr(cfg.MinVersion) && inr(cfg.MaxVersion)
+//@   ensures ech_kept: ech || ret != nil ==> cfg.MinVersion == old(cfg.MinVersion) && cfg.MaxVersion == old(cfg.MaxVersion)
+//@   ensures hello: ret == nil && !ech ==> uconn.HandshakeState.Hello.SupportedVersions == callres(makeSupportedVersions, 0) && callarg(makeSupportedVersions, 0, 0) == cfg.MinVersion && callarg(makeSupportedVersions, 0, 1) == cfg.MaxVersion
+//@   ensures consistent: explicit && ret == nil && !ech && versConsistent(min0, max0, exts) ==> versAdvertised(cfg, exts)
+//@   ensures derived_contiguous: !explicit && ret == nil && !ech && (forall k in 0..n: isSVE(exts[k]) ==> nz(sveV(exts[k]))) && versConsistent(cfg.MinVersion, cfg.MaxVersion, exts) ==> versAdvertised(cfg, exts)
+//@   note the next two clauses are the property (every spec). SetTLSVers accepts specs whose range is not covered by their supported_versions list: DEFECT_C13_ff102shape is the instance "the only extension is supported_versions{1.3, 1.2}" (HelloFirefox_102 declares TLSVersMin 1.0 with that list), DEFECT_C13_advertised the general statement (quantified: times out instead of sat)
+//@   ensures DEFECT_C13_ff102shape: ret == nil && !ech && n == 1 && isSVE(exts[0]) && len(sveV(exts[0])) == 2 && sveV(exts[0])[0] == VersionTLS13 && sveV(exts[0])[1] == VersionTLS12 ==> cfg.MinVersion >= VersionTLS12
+//@   ensures DEFECT_C13_advertised: ret == nil ==> versAdvertised(cfg, exts)
+//@   loop 0 invariant -1 <= $rangeindex && $rangeindex < n
+//@   loop 0 invariant 0 <= supportedVersionsExtensionsPresent && supportedVersionsExtensionsPresent <= $k
+//@   loop 0 invariant supportedVersionsExtensionsPresent == 0 <==> noSVE(exts, $k)
+//@   loop 0 invariant supportedVersionsExtensionsPresent == 0 ==> minTLSVers == 0 && maxTLSVers == 0
+//@   loop 0 invariant supportedVersionsExtensionsPresent >= 2 <==> twoSVE(exts, $k)
+//@   loop 0 invariant supportedVersionsExtensionsPresent >= 1 ==> minTLSVers != 0 || maxTLSVers != 0
+//@   loop 0 invariant supportedVersionsExtensionsPresent == 1 ==> forall k in 0..$k: isSVE(exts[k]) && nz(sveV(exts[k])) ==> minTLSVers != 0 && maxTLSVers != 0 && within(sveV(exts[k]), len(sveV(exts[k])), minTLSVers, maxTLSVers) && attained(sveV(exts[k]), len(sveV(exts[k])), minTLSVers) && attained(sveV(exts[k]), len(sveV(exts[k])), maxTLSVers)
